@@ -1289,6 +1289,8 @@ impl Tera {
         let mut state = State::new_with_chunk(&component_context, chunk);
         state.filters = Some(&self.filters);
         vm.interpret(&mut state, &mut write)?;
+        #[cfg(feature = "verif-hooks")]
+        crate::verif::render_end("component", (0, 0, 0), state.verif_sizes());
 
         Ok(())
     }
@@ -1351,6 +1353,82 @@ impl Tera {
         }
         let mut vm = VirtualMachine::new(self, template);
         vm.render_to(Some(block_name), context, &self.global_context, write)
+    }
+}
+
+#[cfg(feature = "verif-hooks")]
+impl Tera {
+    /// The instructions of every chunk (body, blocks, components) of a template, for the
+    /// verification harness
+    pub fn verif_chunks(&self, template_name: &str) -> Option<Vec<(String, Vec<String>)>> {
+        let tpl = self.templates.get(template_name)?;
+        let mut out = vec![("body".to_string(), tpl.chunk.verif_listing())];
+        let mut blocks: Vec<_> = tpl.blocks.iter().collect();
+        blocks.sort_by(|a, b| a.0.cmp(b.0));
+        for (name, chunk) in blocks {
+            out.push((format!("block:{name}"), chunk.verif_listing()));
+        }
+        let mut components: Vec<_> = tpl.components.iter().collect();
+        components.sort_by(|a, b| a.0.cmp(b.0));
+        for (name, (_, chunk)) in components {
+            out.push((format!("component:{name}"), chunk.verif_listing()));
+        }
+        Some(out)
+    }
+
+    /// A canonical dump of everything `finalize_templates` derives, for the verification harness
+    pub fn verif_digest(&self) -> String {
+        use std::fmt::Write;
+        let mut out = String::new();
+        writeln!(
+            out,
+            "autoescape_suffixes={:?} fallback_prefixes={:?} delimiters={:?}",
+            self.autoescape_suffixes, self.fallback_prefixes, self.delimiters
+        )
+        .unwrap();
+        let mut names: Vec<&String> = self.templates.keys().collect();
+        names.sort();
+        for name in names {
+            let tpl = &self.templates[name];
+            writeln!(
+                out,
+                "template {name:?} extends={:?} parents={:?} autoescape={} size_hint={} source={:?}",
+                tpl.extends,
+                tpl.parents,
+                tpl.autoescape_enabled,
+                tpl.total_content_num_bytes,
+                tpl.source
+            )
+            .unwrap();
+            let mut blocks: Vec<_> = tpl.block_lineage.iter().collect();
+            blocks.sort_by(|a, b| a.0.cmp(b.0));
+            for (block, lineage) in blocks {
+                for (level, chunk) in lineage.iter().enumerate() {
+                    writeln!(
+                        out,
+                        "  lineage {block:?}[{level}] from {:?}: {:?}",
+                        chunk.name,
+                        chunk.verif_listing()
+                    )
+                    .unwrap();
+                }
+            }
+        }
+        let mut components: Vec<_> = self.components.iter().collect();
+        components.sort_by(|a, b| a.0.cmp(b.0));
+        for (name, (def, chunk)) in components {
+            writeln!(
+                out,
+                "component {name:?} from {:?} kwargs={:?} rest={:?} metadata={:?}: {:?}",
+                chunk.name,
+                def.kwargs,
+                def.rest_param_name,
+                def.metadata,
+                chunk.verif_listing()
+            )
+            .unwrap();
+        }
+        out
     }
 }
 
